@@ -113,7 +113,7 @@ func runCheck(o checkOpts) int {
 		fc := c.cf.Funcs[name]
 		tagged := false
 		for _, cl := range fc.Clauses {
-			if hasProp(cl, prop) && len(cl.Props) > 0 {
+			if hasProp(cl, prop) && len(cl.Props) > 0 && !cl.Assumed {
 				tagged = true
 			}
 		}
